@@ -8,14 +8,11 @@ import UnytProofs.Lemmas.C14Chunk10  -- build order only: at most four chunks ar
 namespace Unyt.C14
 
 /-- every listed name of chunk 14 (four slices of 64 rows) is read by the string route and by the
-    three attribute routes as the independent reference reads it (guard: word-prefixed °C) -/
+    three attribute routes as the independent reference reads it -/
 theorem names_slice_14_0 : namesSliceOk 14 0 = true := by decide +kernel
 theorem names_slice_14_1 : namesSliceOk 14 1 = true := by decide +kernel
 theorem names_slice_14_2 : namesSliceOk 14 2 = true := by decide +kernel
 theorem names_slice_14_3 : namesSliceOk 14 3 = true := by decide +kernel
-
-/-- every excluded name of chunk 14 really is unusable as a unit string -/
-theorem exclusions_chunk_14 : exclusionsChunkOk 14 = true := by decide +kernel
 
 /-- prefix spellings 3·14 … 3·14+2 (symbols, then word forms) are rejected on every
     non-prefixable spelling (three slices of 110 spelling rows) -/
